@@ -256,7 +256,7 @@ def cmd_check(prop, tier, seed, only=None, jobs=None):
             tb_meta.append((r, role))
     rest = [r for r in ok_results if (r["contract"], r["case"]) not in chosen and by_name[r["contract"]].target]
     _random.Random(seed).shuffle(rest)
-    for r in (rest if tier == "thorough" else rest[:24]):
+    for r in (rest if tier == "thorough" else rest[:48]):
         tb_jobs.append({"mode": "enumerate", "module": r["module"], "contract": r["contract"], "case": r["case_params"],
                         "maxlen": maxlen, "cap": cap_xcheck, "seed": seed})
         tb_meta.append((r, "cross-check"))
